@@ -153,7 +153,7 @@ variable {γ : Type} {C : GClass γ} (S : GSem C)
 
 theorem readKthBody_ok {size : Nat} {rows : List KRow} {G G' : γ} {prev : Nat} (h : S.Inv G)
     (e : readKthBody C size G prev rows = .ok G') :
-    S.Inv G' ∧ C.order G' = C.order G ∧
+    S.Inv G' ∧ C.order G' = C.order G ∧ (∀ x ∈ kthPairs rows, S.Valid (C.order G) x.1 x.2) ∧
       ∀ p, p ∈ S.E G' ↔ (p ∈ S.E G ∨ ∃ x ∈ kthPairs rows, S.contrib x.1 x.2 p) := by
   induction rows generalizing G prev with
   | nil => simp only [readKthBody] at e; cases e; simp [h, kthPairs]
@@ -179,15 +179,20 @@ theorem readKthBody_ok {size : Nat} {rows : List KRow} {G G' : γ} {prev : Nat} 
             simp only at e
             obtain ⟨l, r, rfl, hl, hr, _, _, _, _⟩ := kthAdj_ok ha
             rw [addPreds_eq] at hp
-            obtain ⟨_, hi, ho, hm⟩ := S.addAll_ok h hp
-            obtain ⟨hi', ho', hm'⟩ := ih hi e
-            refine ⟨hi', by rw [ho', ho], ?_⟩
-            intro p
+            obtain ⟨hv, hi, ho, hm⟩ := S.addAll_ok h hp
+            obtain ⟨hi', ho', hv', hm'⟩ := ih hi e
             have key : kthRowPairs (.adj (some (l, r))) =
                 preds.map (fun (v : Nat) => ((v : Int), (succ : Int))) := by
               simp only [kthRowPairs, hr, hl, List.map_map]; rfl
-            rw [hm', hm, kthPairs_cons, key]
-            simp only [List.mem_append, or_and_right, exists_or, or_assoc]
+            refine ⟨hi', by rw [ho', ho], ?_, ?_⟩
+            · intro x hx
+              rw [kthPairs_cons, key, List.mem_append] at hx
+              rcases hx with hx | hx
+              · exact hv x hx
+              · rw [← ho]; exact hv' x hx
+            · intro p
+              rw [hm', hm, kthPairs_cons, key]
+              simp only [List.mem_append, or_and_right, exists_or, or_assoc]
 
 include S in
 theorem readKthBody_err {size : Nat} {rows : List KRow} {G : γ} {prev : Nat} {x : Err}
@@ -219,6 +224,7 @@ adjacency lines state -/
 theorem readKth_contract (rows : List KRow) :
     (∀ x, readKth C rows = .error x → x = .valueError) ∧
     (∀ G, readKth C rows = .ok G → S.Inv G ∧ kthSize rows = some (C.order G : Int) ∧
+      (∀ x ∈ kthPairs rows, S.Valid (C.order G) x.1 x.2) ∧
       ∀ p, p ∈ S.E G ↔ ∃ x ∈ kthPairs rows, S.contrib x.1 x.2 p) := by
   unfold readKth
   cases hh : kthHeader rows with
@@ -235,8 +241,8 @@ theorem readKth_contract (rows : List KRow) :
       cases e; exact readKthBody_err S hb
     | ok G₁ =>
       simp only
-      obtain ⟨hi, ho, hm⟩ := readKthBody_ok S (S.init_inv size) hb
-      rw [S.init_order] at ho
+      obtain ⟨hi, ho, hv, hm⟩ := readKthBody_ok S (S.init_inv size) hb
+      rw [S.init_order] at ho hv
       constructor
       · intro x e
         split at e
@@ -246,7 +252,7 @@ theorem readKth_contract (rows : List KRow) :
         split at e
         · cases e
         · cases e
-          refine ⟨hi, by rw [hsize, ho], ?_⟩
+          refine ⟨hi, by rw [hsize, ho], by rw [hpairs, ho]; exact hv, ?_⟩
           intro p
           rw [hm, S.init_E, hpairs]
           simp
